@@ -186,6 +186,34 @@ static bool runScenario(uint64_t seed, uint64_t idx)
   gUnlockDelayUs = rng.chance(0.4) ? uint32_t(rng.range(50, 1500)) : 0;
   auto onErr = [S](std::exception_ptr) { S->errHandlerCalls++; };
   S->pool = new ThreadPool(S->minT, S->maxT, std::chrono::milliseconds(idleMs), S->qsize, onErr);
+  // a quarter of the scenarios run in the SECOND life of the pool (stop -> reset -> start after a short earlier
+  // life): the restarted pool owes the same guarantees, and nothing of the first life may leak into the second
+  bool secondLife = rng.chance(0.25);
+  std::atomic<int> earlyRan{0};
+  int earlyAccepted = 0, earlyAtRestart = 0;
+  if (secondLife)
+  {
+    int ne = int(rng.range(0, 12));
+    for (int i = 0; i < ne; i++)
+    {
+      bool ok = false;
+      int kind = int(rng.below(3));
+      try { ok = S->pool->tryEnqueue([&earlyRan, kind]() { if (kind == 1) vf::sleepMs(0.3); earlyRan++; if (kind == 2) throw std::runtime_error("early"); }); } catch (...) { ok = false; }
+      if (ok) earlyAccepted++;
+    }
+    if (rng.chance(0.5)) vf::sleepMs(double(idleMs <= 20 ? idleMs : 2) * 1.6); // let surplus workers idle-exit first
+    auto sr = S->pool->stop();
+    earlyAtRestart = earlyRan.load();
+    auto rr = S->pool->reset();
+    auto st = S->pool->start();
+    if (!sr.success || !rr.success || !st.success)
+      O.viol("C09:restart-failed", "stop() -> reset() -> start() on a pool with bounded tasks reported failure: stop: " + sr.message + " reset: " + rr.message + " start: " + st.message,
+             "{\"scenario\":" + std::to_string(idx) + ",\"seed\":" + std::to_string(seed) + "}");
+    if (earlyAtRestart != earlyAccepted)
+      O.viol("C09:accepted-task-never-ran", "task accepted in the pool's first life had not run when stop() returned", "{\"scenario\":" + std::to_string(idx) + ",\"seed\":" + std::to_string(seed) +
+             ",\"accepted\":" + std::to_string(earlyAccepted) + ",\"ran\":" + std::to_string(earlyAtRestart) + ",\"first_life\":1}");
+    S->errHandlerCalls = 0;
+  }
   if (pattern == 3) vf::sleepMs(double(idleMs) * 0.9); // submissions land around the idle-exit instant
 
   // sampler: thread count while the pool accepts work
@@ -369,6 +397,11 @@ static bool runScenario(uint64_t seed, uint64_t idx)
   else if (S->sampledMaxThreads.load() > S->maxT)
     O.viol("C09:threads-exceed-max", "getTotalThreadCount() exceeded the configured maximum while accepting", det("\"sampled_total\":" + std::to_string(S->sampledMaxThreads.load())));
 
+  if (secondLife)
+  {
+    O.obs("scenarios_in_second_life");
+    if (earlyRan.load() != earlyAtRestart) O.viol("C09:first-life-task-ran-in-second-life", "a task of the pool's first life ran after stop() -> reset() -> start()", det("\"count\":" + std::to_string(earlyRan.load() - earlyAtRestart)));
+  }
   O.obs("scenarios"); O.obs("tasks_accepted", accepted); O.obs("tasks_refused", refused); O.obs("tasks_throwing", thrown);
   O.obs("late_submission_refused_cleanly", lateRefusedOk);
   O.obs(std::string("shutdown_kind_") + (shutdownKind == 0 ? "destructor" : shutdownKind == 1 ? "stop" : shutdownKind == 2 ? "drain_stop" : shutdownKind == 3 ? "stop_racing_submitters" : "shutdown_racing_submitters"));
@@ -376,7 +409,7 @@ static bool runScenario(uint64_t seed, uint64_t idx)
   O.obsMax("max_concurrent_workers_seen", uint64_t(S->hwRunning.load()));
   if (size_t(S->hwRunning.load()) == S->maxT) O.obs("scenarios_reaching_max_threads");
   char sig[160];
-  snprintf(sig, sizeof sig, "min=%zu max=%zu q=%zu idle=%d pat=%d sd=%d ref=%d thr=%d hw=%d", S->minT, S->maxT, S->qsize, idleMs, pattern, shutdownKind, refused ? 1 : 0, thrown ? 1 : 0, S->hwRunning.load());
+  snprintf(sig, sizeof sig, "min=%zu max=%zu q=%zu idle=%d pat=%d sd=%d ref=%d thr=%d hw=%d life=%d", S->minT, S->maxT, S->qsize, idleMs, pattern, shutdownKind, refused ? 1 : 0, thrown ? 1 : 0, S->hwRunning.load(), secondLife ? 2 : 1);
   O.caseSig(vf::fnv(sig, strlen(sig)));
   if (idx % 40 == 0) O.sample("{\"kind\":\"thread-pool scenario\",\"sig\":" + vf::jstr(sig) + ",\"accepted\":" + std::to_string(accepted) + ",\"refused\":" + std::to_string(refused) + "}");
   delete S;
